@@ -263,7 +263,8 @@ def run_model(prop, imports, exprs, shard=400, timeout=900, prelude=""):
             f.write("Set Printing Depth 100000000.\nSet Printing Width 100000.\n" + prelude + "\n")
             f.write("Definition outs : list bytes := [\n" + ";\n".join(shards[k]) + "\n].\n")
             f.write("Eval vm_compute in outs.\n")
-        p = subprocess.Popen(["timeout", str(timeout), "coqc", "-noglob", "-R", COQ, "S3V", "-o",
+        p = subprocess.Popen(["bash", "-c", 'ulimit -s unlimited 2>/dev/null || ulimit -s 1000000; exec "$@"', "coqc-wrap",
+                              "timeout", str(timeout), "coqc", "-noglob", "-R", COQ, "S3V", "-o",
                               os.path.join(rundir, "cases_%d.vo" % k), path],
                              stdout=subprocess.PIPE, stderr=subprocess.STDOUT, cwd=rundir)
         return p
